@@ -158,15 +158,44 @@ def e2e_source(sigs, args, caller_first=False):
     return "\n".join(parts) + "\n"
 
 
-def e2e_case(ctx, case):
+def e2e_split_case(ctx, case):
+    """the overload set is split: the first `k` overloads live in an imported, separately compiled module"""
+    import os
+    import pickle
+    import shutil
+    import tempfile
+    sigs, args, k = case
+    work = tempfile.mkdtemp(prefix="c10_")
+    old = os.getcwd()
+    os.chdir(work)
+    try:
+        whole = e2e_source(sigs, args).split("\n")
+        lib = adapter.compile_src("\n".join(whole[:k]) + "\n")
+        if not lib.ok:
+            ctx.discard("library-part-not-accepted")
+            return
+        with open("ovl.nslir", "wb") as fh:
+            pickle.dump(lib.ir, fh)
+        src = 'import "ovl" ;\n' + "\n".join(whole[k:])
+        ctx.label("e2e-overload-set-split-over-modules")
+        e2e_case(ctx, (sigs, args, False), src=src, case_obj=case)
+    finally:
+        os.chdir(old)
+        shutil.rmtree(work, ignore_errors=True)
+
+
+def e2e_case(ctx, case, src=None, linked_with=(), case_obj=None):
     sigs, args, caller_first = case
     sigs = [tuple(s) for s in sigs]
     args = tuple(args)
     ctx.count()
     want = resolve(sigs, args)
     if classify(ctx, sigs, args):
-        ctx.nontrivial((tuple(sigs), args, caller_first))
-    src = e2e_source(sigs, args, caller_first)
+        ctx.nontrivial((tuple(sigs), args, caller_first, src is not None))
+    if src is None:
+        src = e2e_source(sigs, args, caller_first)
+    if case_obj is not None:
+        case = case_obj
     c = adapter.compile_src(src)
     if ctx.want_sample() and len(sigs) >= 2:
         ctx.sample({"source": src, "expected": "rejected" if want is None else "overload #%d" % (want + 1)})
@@ -193,7 +222,7 @@ def e2e_case(ctx, case):
     if any(a != p and a[0] == "v" for a, p in zip(args, sigs[want])):
         ctx.label("e2e-static-only(vector conversion)")
         return
-    program = adapter.link([c.ir])
+    program = adapter.link(list(linked_with) + [c.ir])
     vm = adapter.new_vm(program)
     ran = adapter.invoke(vm, "f", {k: (list(v) if isinstance(v, list) else v) for k, v in ARGVAL.items()}, budget=10000)
     if not ran.ok:
@@ -256,6 +285,9 @@ def run(R):
                             out.append((order, args, k % 2 == 0))
             return out
         R.enum("end-to-end", e2e_items, e2e_case, chunks=128)
+    R.hyp("end-to-end-split", e2e_strategy().filter(lambda c: len(c[0]) >= 2).flatmap(
+        lambda c: st.integers(1, len(c[0]) - 1).map(lambda k: (c[0], c[1], k))), e2e_split_case, examples=R.pick(60, 1500))
+    R.require("e2e-overload-set-split-over-modules")
     R.require("one-arg-incompatible-another-convertible")
     R.require("several-viable")
     R.require("e2e-expected-accept")
